@@ -107,10 +107,19 @@ where
     where
         T: Ord,
     {
-        let a = parse_filesize(&self.values[i].to_string()).unwrap_or(0);
-        let b = parse_filesize(&other.values[i].to_string()).unwrap_or(0);
+        let a = self.values[i].to_string();
+        let b = other.values[i].to_string();
 
-        a.cmp(&b)
+        match (parse_filesize(&a), parse_filesize(&b)) {
+            (Some(a), Some(b)) => a.cmp(&b),
+            // negative and fractional keys are compared as real numbers
+            (a_size, b_size) => {
+                let a = a_size.map_or_else(|| a.parse::<f64>().unwrap_or(0.0), |size| size as f64);
+                let b = b_size.map_or_else(|| b.parse::<f64>().unwrap_or(0.0), |size| size as f64);
+
+                a.total_cmp(&b)
+            }
+        }
     }
 
     #[inline]
